@@ -1014,6 +1014,145 @@ func nearAxisFamily(budget time.Duration) mc.Family {
 	}
 }
 
+// creepFamily: long runs of (almost) horizontal or vertical segments whose
+// perpendicular coordinate creeps by less than any per-segment tolerance at
+// every step: what counts is the distance from the position the decoder
+// reconstructs, which grows with the run.
+func creepFamily(budget time.Duration) mc.Family {
+	lengths := []int{200, 2000, 10000}
+	var creeps, starts []*big.Rat
+	for _, sx := range []string{"9/10000000", "1/2000000", "1/10000000", "3/1000000", "1/100000", "1/1000000"} {
+		r, _ := new(big.Rat).SetString(sx)
+		creeps = append(creeps, r, new(big.Rat).Neg(r))
+	}
+	for _, sx := range []string{"0", "23/5000", "-23/5000", "1/250", "1/2"} {
+		r, _ := new(big.Rat).SetString(sx)
+		starts = append(starts, r)
+	}
+	kinds := []string{"horizontal lines", "vertical lines", "horizontal moves", "curves with horizontal tangents"}
+	n := len(lengths) * len(creeps) * len(starts) * len(kinds)
+	return mc.Family{
+		Name: "perpendicular-creep", Items: n, Budget: budget,
+		Rule: fmt.Sprintf("item = (path of %v segments) x (creep per segment in +-{9e-7, 5e-7, 1e-7, 3e-6, 1e-5, 1e-6}) x (fractional part of the start coordinate in {0, +-0.0046, 0.004, 0.5}) x %q: every segment advances by 1 along its axis and by the creep across it; encoder -> exact reconstruction and library decoder: every absolute coordinate within 1/214; non-trivial = all", lengths, kinds),
+		Body: func(c *mc.Ctx, item int) mc.Verdict {
+			ln := lengths[item%len(lengths)]
+			cr := creeps[(item/len(lengths))%len(creeps)]
+			st := starts[(item/len(lengths)/len(creeps))%len(starts)]
+			kind := item / len(lengths) / len(creeps) / len(starts)
+			one, zero := big.NewRat(1, 1), new(big.Rat)
+			p := newPath()
+			var x, y float64
+			if kind == 1 {
+				x, y = p.advance(st, zero)
+			} else {
+				x, y = p.advance(zero, st)
+			}
+			p.g.MoveTo(x, y)
+			for i := 0; i < ln; i++ {
+				switch kind {
+				case 0:
+					x, y = p.advance(one, cr)
+					p.g.LineTo(x, y)
+				case 1:
+					x, y = p.advance(cr, one)
+					p.g.LineTo(x, y)
+				case 2:
+					if i%50 == 49 {
+						p.g.ClosePath()
+						x, y = p.advance(one, cr)
+						p.g.MoveTo(x, y)
+					} else {
+						x, y = p.advance(one, cr)
+						p.g.LineTo(x, y)
+					}
+				default:
+					x1, y1 := p.advance(one, zero)
+					x2, y2 := p.advance(one, cr)
+					x3, y3 := p.advance(one, zero)
+					p.g.CurveTo(x1, y1, x2, y2, x3, y3)
+				}
+			}
+			p.g.ClosePath()
+			what := func() string {
+				return fmt.Sprintf("%d %s, creep %s per segment, start offset %s", ln, kinds[kind], cr.RatString(), st.RatString())
+			}
+			res, v := checkPath(p, what)
+			c.Step()
+			if v != nil {
+				v.Key += ":creep"
+				v.Render = what()
+				return *v
+			}
+			out := mc.Pass("creep/"+errClass(res.maxErr)+shimNote(), true)
+			if c.Render() {
+				out.Render = what() + fmt.Sprintf(" max error %g", res.maxErr)
+			}
+			return out
+		},
+	}
+}
+
+// afterFailureFamily: the library's charstring decoder gives the same result for
+// a charstring whatever it decoded (or failed to decode) before: every bad
+// charstring (operands pending when it fails) followed by every good one.
+func afterFailureFamily(budget time.Duration) mc.Family {
+	num := func(v int32) []byte {
+		return []byte{255, byte(v >> 24), byte(v >> 16), byte(v >> 8), byte(v)}
+	}
+	cat := func(parts ...[]byte) []byte {
+		var b []byte
+		for _, p := range parts {
+			b = append(b, p...)
+		}
+		return b
+	}
+	small := func(v int) []byte { return []byte{byte(v + 139)} }
+	hsbw := cat(small(10), small(100), []byte{13})
+	bad := [][]byte{
+		cat(hsbw, small(7), num(100000)[:3]),                                    // cut inside a five-byte number
+		cat(hsbw, small(1), small(2), small(3), []byte{12, 99}),                 // unknown escape with operands pending
+		cat(hsbw, small(1), small(2), small(3), small(4), small(5), []byte{10}), // callsubr into nowhere
+		cat(small(1), small(2), small(3), small(4), small(5)),                   // ends without endchar, operands pending
+		cat(hsbw, bytes.Repeat(small(9), 30)),                                   // operand stack overflow
+		cat(hsbw, small(5), []byte{12, 12}),                                     // div with one operand
+		cat(small(17), small(27)),                                               // two numbers, nothing else
+		{255, 1},                                                                // cut number at the very start
+	}
+	good := [][]byte{
+		cat(hsbw, small(10), small(20), []byte{21}, small(30), []byte{6}, small(40), []byte{7}, []byte{9, 14}),
+		cat(small(0), small(50), []byte{13}, []byte{14}),
+		cat(num(17), num(600), []byte{13}, num(100000), num(-100000), []byte{21}, small(1), small(2), []byte{5}, []byte{9, 14}),
+	}
+	return mc.Family{
+		Name: "decode-after-failed-decode", Items: len(bad) * len(good), Budget: budget,
+		Rule: fmt.Sprintf("library charstring decoder (export shim): %d charstrings that fail with operands pending (cut inside a five-byte number, unknown escape, callsubr into nowhere, missing endchar, operand stack overflow, div with one operand) x %d good charstrings: the good one decoded after the bad one gives exactly what it gives when decoded first; non-trivial = shim available", len(bad), len(good)),
+		Body: func(c *mc.Ctx, item int) mc.Verdict {
+			if !shimAvailable {
+				return mc.Pass("shim_unavailable", false)
+			}
+			b, g := bad[item%len(bad)], good[item/len(bad)]
+			ref, err := shimDecode(g)
+			if err != nil {
+				return mc.Fail("C20:HARNESS:good-charstring-rejected", fmt.Sprintf("%x: %v", g, err))
+			}
+			want := fmt.Sprintf("%v %v %v", ref.WidthX, ref.WidthY, t1fontsDump(ref))
+			if _, err := shimDecode(b); err == nil {
+				// accepted after all: then it is not a failure case, nothing to check
+				return mc.Pass("bad-charstring-accepted", false)
+			}
+			got, err := shimDecode(g)
+			c.Steps(3)
+			if err != nil {
+				return mc.Fail("C20:decode-after-failure:rejected", fmt.Sprintf("charstring %x is rejected (%v) after %x had failed to decode", g, err, b))
+			}
+			if s := fmt.Sprintf("%v %v %v", got.WidthX, got.WidthY, t1fontsDump(got)); s != want {
+				return mc.Fail("C20:decode-after-failure:differs", fmt.Sprintf("charstring %x decodes to %s after %x had failed to decode, and to %s before", g, s, b, want))
+			}
+			return mc.Pass("same-after-failure"+shimNote(), true)
+		},
+	}
+}
+
 func t1fontsDump(g *type1.Glyph) string {
 	var sb strings.Builder
 	for _, cmd := range g.Cmds {
@@ -1181,6 +1320,8 @@ func main() {
 			})
 			fams = append(fams, curveFormsFamily(budget))
 			fams = append(fams, nearAxisFamily(budget))
+			fams = append(fams, creepFamily(budget))
+			fams = append(fams, afterFailureFamily(budget))
 			fams = append(fams, mc.Family{
 				Name: "drift-long-paths", Items: numLetters * len(formats), Budget: budget,
 				Rule: "item = one (delta, kind) x file format: a path of 10,000 such segments; encoder -> exact reconstruction and library decoder on the full path (format index 0), and Font.Write -> Read and -> independent decoder in each format (on the longest prefix whose charstring fits the 65535-byte PostScript string limit): every absolute coordinate within 1/214 of the requested one; non-trivial = all",
